@@ -22,8 +22,13 @@ import traceback
 from dxv import sut
 
 VERIF = os.path.dirname(os.path.dirname(os.path.abspath(__file__)))
-EVIDENCE_DIR = os.path.join(VERIF, 'evidence')
-REPLAY_DIR = os.path.join(VERIF, 'replays')
+# Evidence describes /repo itself; runs against a scratch copy (VERIF_REPO,
+# used for the sensitivity trials) write elsewhere and are never committed.
+_SCRATCH = os.path.abspath(sut.REPO) != '/repo'
+EVIDENCE_DIR = os.path.join(VERIF, '.scratch-evidence' if _SCRATCH
+                            else 'evidence')
+REPLAY_DIR = os.path.join(VERIF, '.scratch-replays' if _SCRATCH
+                          else 'replays')
 FINDINGS_DIR = os.path.join(VERIF, 'findings')
 KNOWN_FILE = os.path.join(VERIF, 'known_findings.txt')
 NPROC = int(os.environ.get('VERIF_NPROC', '16'))
